@@ -175,6 +175,65 @@ def gossip3(rng, frames, **over):
     return p
 
 
+def slowhs(rng, frames, **over):
+    """A handshake over a very slow link (one-way latency above a second): several requests are outstanding when
+    the replies to the oldest ones arrive; every answered request that was really issued counts (C12), whatever
+    order the outstanding numbers are kept in (C17)."""
+    p = general(rng, frames, npeers=over.pop("npeers", 2), spectators=over.pop("spectators", rng.choice([0, 1])), **over)
+    p["cfg"]["timeout"] = 12000
+    p["cfg"]["notify"] = 6000
+    p["cfg"]["desync"] = 0
+    p["lat_lo"] = rng.choice([1100, 1300, 1700])
+    p["lat_hi"] = p["lat_lo"] + rng.choice([0, 0, 150])
+    p["jitter"] = 0
+    p["loss"] = rng.choice([0.0, 0.0, 0.1])
+    p["dup"] = 0.0
+    p["p_pause"] = 0.0
+    p["tick_ms"] = [16 for _ in p["tick_ms"]]
+    p["max_ms"] = 200000
+    return p
+
+
+def mis3(rng, frames, i=0, **over):
+    """Three peers A B C, lossless.  C dies (both survivors hold the same amount of its input); a little later A
+    misses B's packets for a few frames and mispredicts them; A disconnects C explicitly in (about) the call in
+    which B's inputs arrive again, so one advance_frame has two reasons to roll back: C's cut-off (earlier) and B's
+    first mispredicted frame (later).  The final timeline must be Disconnected from the cut-off on (C07, C10)."""
+    p = general(rng, frames + 60, npeers=3, max_locals=1, window=8, **over)
+    p["cfg"]["timeout"] = 8000
+    p["cfg"]["notify"] = 4000
+    p["cfg"]["desync"] = 0
+    p["cfg"]["sparse"] = rng.random() < 0.25
+    perm = [0, 1, 2]
+    rng.shuffle(perm)
+    a, b, c = perm
+    f = rng.randrange(12, max(13, frames))
+    # the alignment (B's inputs back in the very call that follows the disconnect) is swept systematically
+    out = 3 + (i // 9) % 2
+    g = 1                                      # B's outage starts g frames after C's death
+    delta = i % 3
+    adj = [-8, 0, 8][(i // 3) % 3]
+    p["kills"] = [{"p": c, "at_frame": f}]
+    p["cuts"] = [{"from": b, "to": a, "at_frame": f + g, "len": 16 * out + adj}]
+    p["discs"] = [{"p": a, "h": c, "at_frame": f + g + out + delta}]
+    p["tick_ms"] = [16, 16, 16]
+    p["jitter"] = 0
+    p["lat_lo"] = rng.choice([2, 5])
+    p["lat_hi"] = p["lat_lo"]
+    p["loss"] = 0.0
+    p["dup"] = 0.0
+    p["alphabet"] = 16
+    p["change"] = 1.0
+    p["p_pause"] = 0.0
+    p["p_poll"] = 0.0
+    p["settle_ms"] = 1200
+    p["after_drop_progress"] = 30
+    p["max_ms"] = 40000
+    for pc in p["cfg"]["peers"]:
+        pc["delay"] = 0
+    return p
+
+
 def stale3(rng, frames, **over):
     """Three peers A B C, dense saving.  A loses B's packets for a few frames and mispredicts them while C's inputs keep
     coming; when the link heals A re-simulates frames that are all confirmed by then.  C's link to B is cut a little
